@@ -1,5 +1,5 @@
 """C06 — private key material never leaves: public export (and produced objects)."""
-import copy, hashlib, itertools, json
+import base64, copy, hashlib, itertools, json
 import keys as K
 
 ID = "C06"
@@ -130,6 +130,18 @@ def gen(ctx):
             k = dict(key, key_ops=ko)
             singles.append(k)
             singles.append(dict(k, use="sig", alg="X", kid="é\"\\\n", x5c=["a"], extra={"d": "nested d is not private"}))
+    # key_ops on keys that are ALREADY public, or that hold only some private members; kty in other letter case together
+    # with key_ops; extra members named like another type's private members (they are extras here and stay)
+    for t, key in base.items():
+        pubk = {m: v for m, v in key.items() if m not in {"oct": ["k"], "RSA": ["d", "p", "q", "dp", "dq", "qi", "oth"], "EC": ["d"]}[t]}
+        for ko in kos[:10] + [ALLOPS]:
+            singles.append(dict(pubk, key_ops=ko))
+            for kty in ktys[t][1:3]:
+                singles.append(dict(key, kty=kty, key_ops=ko))
+                singles.append(dict(pubk, kty=kty, key_ops=ko))
+        other_priv = {"oct": {"d": "AAAA", "p": "AAAA", "qi": "AAAA"}, "RSA": {"k": "AAAA"}, "EC": {"k": "AAAA", "p": "AAAA", "dq": "AAAA"}}[t]
+        singles.append(dict(key, **other_priv))
+        singles.append(dict(pubk, **other_priv))
     # malformed
     singles += [{}, {"kty": "bogus", "k": "AA"}, {"kty": 5}, {"k": "AA"}, {"kty": None}, {"kty": "oct"}, {"kty": "EC", "d": 5, "x": None},
                 {"kty": "RSA", "d": {"a": 1}, "p": []}, 5, "oct", None, True, {"kty": "octx", "k": "AA"}, {"kty": "", "k": "AA"}]
@@ -162,7 +174,8 @@ PRIVATE = {"oct": ["k"], "RSA": ["d", "p", "q", "dp", "dq", "qi", "oth"], "EC": 
 def secrets_of(key):
     out = []
     if isinstance(key, str):
-        return [key] if len(key) >= 6 else []
+        # a password: as text, and as the library holds it internally (an oct key whose k is its base64url)
+        return ([key] if len(key) >= 6 else []) + ([base64.urlsafe_b64encode(key.encode()).decode().rstrip("=")] if len(key) >= 6 else [])
     if isinstance(key, list):
         return sum((secrets_of(k) for k in key), [])
     if isinstance(key, dict):
